@@ -737,4 +737,385 @@ theorem getRaw_addEdge {f : Forest N G} {u v : N} (g : G) (hne : u ≠ v) :
 
 end vis
 
+/-! ### overwriting an existing edge does not change any path -/
+
+theorem filter_key_length {l : List (N × N)} {v u : N} (hn : (l.map (·.1)).Nodup)
+    (hm : (v, u) ∈ l) : (l.filter (fun p => p.1 != v)).length + 1 = l.length := by
+  induction l with
+  | nil => simp at hm
+  | cons e t ih =>
+    obtain ⟨a, b⟩ := e
+    simp only [List.map_cons, List.nodup_cons] at hn
+    by_cases hav : a = v
+    · subst hav
+      have : t.filter (fun p => p.1 != a) = t := by
+        rw [List.filter_eq_self]
+        intro p hp
+        have : p.1 ≠ a := fun h => hn.1 (List.mem_map.mpr ⟨p, hp, h⟩)
+        simpa using this
+      simp [this]
+    · have hm' : (v, u) ∈ t := by
+        rcases List.mem_cons.mp hm with h | h
+        · simp only [Prod.mk.injEq] at h; exact absurd h.1.symm hav
+        · exact h
+      simp [hav, ih hn.2 hm']
+
+theorem parentOf_addEdge_of_parent {f : Forest N G} {u v : N} (g : G) (hp : parentOf f v = some u)
+    (x : N) : parentOf (addEdge f u v g) x = parentOf f x := by
+  rw [addEdge_eq]
+  unfold parentOf at hp ⊢
+  simp only
+  by_cases hx : v = x
+  · subst hx; simp [hp]
+  · rw [List.find?_cons_of_neg (by simpa using hx), List.find?_filter]
+    congr 2
+    funext a
+    by_cases h : a.1 = x
+    · simp [h, Ne.symm hx]
+    · simp [h]
+
+theorem ancestors_congr {f f' : Forest N G} (h : ∀ x, parentOf f' x = parentOf f x) :
+    ∀ n x, ancestors f' n x = ancestors f n x := by
+  intro n
+  induction n with
+  | zero => intro x; rfl
+  | succ n ih => intro x; simp only [ancestors, h, ih]
+
+theorem pathTo_congr {f f' : Forest N G} (h : ∀ x, parentOf f' x = parentOf f x)
+    (hl : f'.parents.length = f.parents.length) (a b : N) : pathTo f' a b = pathTo f a b := by
+  unfold pathTo
+  simp only [hl, ancestors_congr h]
+
+theorem pathTo_addEdge_of_edge {f : Forest N G} (h : WFs f) {u v : N} (g : G) {g₀ : G}
+    (he : edgeOf f u v = some g₀) (a b : N) : pathTo (addEdge f u v g) a b = pathTo f a b := by
+  have hm : (v, u) ∈ f.parents := (h.consistent u v).mpr ⟨g₀, edgeOf_mem he⟩
+  have hp := parentOf_of_mem h.parents_nodup hm
+  apply pathTo_congr (parentOf_addEdge_of_parent g hp)
+  rw [addEdge_eq]
+  simpa using filter_key_length h.parents_nodup hm
+
+/-! ### cache coherence -/
+section cache
+variable [Mul G] [One G] [Inv G] [DecidableEq G]
+
+/-- a cached path for `(b, a)`, reversed, resolves `(a, b)` to the same matrix -/
+def PathSym (f : Forest N G) : Prop :=
+  ∀ a b p, pathTo f b a = some p → pathProduct f p.reverse = (pathTo f a b).bind (pathProduct f)
+
+structure CacheInv (s : Graph N G) : Prop where
+  wfs : WFs s.forest
+  memo : s.hashMemo = none ∨ s.hashMemo = some s.forest
+  paths : ∀ e ∈ s.pathCache, pathTo s.forest e.1.1 e.1.2 = some e.2
+  xs : ∀ h, s.xCacheId = some h → ∀ e ∈ s.xCache, e.2 = getRaw h e.1.1 e.1.2
+
+omit [DecidableEq G] in
+theorem cacheInv_init (base : N) : CacheInv (Graph.init base : Graph N G) :=
+  ⟨wfs_empty, Or.inl rfl, by simp [Graph.init], by simp [Graph.init]⟩
+
+omit [DecidableEq G] in
+theorem cachedPath_spec {s : Graph N G}
+    (hp : ∀ e ∈ s.pathCache, pathTo s.forest e.1.1 e.1.2 = some e.2) (hsym : PathSym s.forest)
+    (a b : N) :
+    (cachedPath s a b).2.forest = s.forest ∧ (cachedPath s a b).2.hashMemo = s.hashMemo ∧
+    (cachedPath s a b).2.xCache = s.xCache ∧ (cachedPath s a b).2.xCacheId = s.xCacheId ∧
+    (∀ e ∈ (cachedPath s a b).2.pathCache, pathTo s.forest e.1.1 e.1.2 = some e.2) ∧
+    (cachedPath s a b).1.bind (pathProduct s.forest) =
+      (pathTo s.forest a b).bind (pathProduct s.forest) := by
+  unfold cachedPath
+  split
+  · rename_i e he
+    have h1 := hp e (List.mem_of_find?_eq_some he)
+    have h2 : e.1 = (a, b) := by simpa using List.find?_some he
+    rw [h2] at h1
+    simp only at h1
+    exact ⟨rfl, rfl, rfl, rfl, hp, by rw [h1]⟩
+  · split
+    · rename_i e he
+      have h1 := hp e (List.mem_of_find?_eq_some he)
+      have h2 : e.1 = (b, a) := by simpa using List.find?_some he
+      rw [h2] at h1
+      simp only at h1
+      exact ⟨rfl, rfl, rfl, rfl, hp, by rw [← hsym a b _ h1]; rfl⟩
+    · split
+      · rename_i p hpath
+        refine ⟨rfl, rfl, rfl, rfl, ?_, by rw [hpath]⟩
+        intro e he
+        rcases List.mem_cons.mp he with rfl | he
+        · exact hpath
+        · exact hp e he
+      · rename_i hpath
+        exact ⟨rfl, rfl, rfl, rfl, hp, by rw [hpath]⟩
+
+/-- `Cache.verify()`: refresh the hash memo, dump the transform cache when the id changed -/
+def verify (s : Graph N G) : Graph N G :=
+  if (currentHash s).2.xCacheId == some (currentHash s).1 then (currentHash s).2
+  else { (currentHash s).2 with xCache := [], xCacheId := some (currentHash s).1 }
+
+/-- the cache-miss branch of `get` -/
+def compute (s : Graph N G) (a b : N) : Option G × Graph N G :=
+  if a = b then ((some 1 : Option G), s)
+  else match edgeOf s.forest a b with
+    | some g => (some g, s)
+    | none => ((cachedPath s a b).1.bind (pathProduct (cachedPath s a b).2.forest),
+        (cachedPath s a b).2)
+
+theorem doGet_eq (s : Graph N G) (a b : N) :
+    doGet s a b =
+      match (verify s).xCache.find? (fun e => e.1 == (a, b)) with
+      | some e => (e.2, verify s)
+      | none =>
+        match (compute (verify s) a b).1 with
+        | some g => (some g, { (compute (verify s) a b).2 with
+            xCache := ((a, b), some g) :: (compute (verify s) a b).2.xCache })
+        | none => (none, (compute (verify s) a b).2) := by
+  unfold doGet verify compute
+  rfl
+
+omit [DecidableEq N] [Mul G] [One G] [Inv G] [DecidableEq G] in
+theorem currentHash_spec {s : Graph N G} (hm : s.hashMemo = none ∨ s.hashMemo = some s.forest) :
+    (currentHash s).1 = s.forest ∧ (currentHash s).2.forest = s.forest ∧
+    (currentHash s).2.hashMemo = some s.forest ∧ (currentHash s).2.pathCache = s.pathCache ∧
+    (currentHash s).2.xCache = s.xCache ∧ (currentHash s).2.xCacheId = s.xCacheId := by
+  unfold currentHash
+  rcases hm with h | h <;> rw [h] <;> simp [snapshot, h]
+
+theorem verify_spec {s : Graph N G} (hinv : CacheInv s) :
+    (verify s).forest = s.forest ∧ (verify s).hashMemo = some s.forest ∧
+    (verify s).pathCache = s.pathCache ∧ (verify s).xCacheId = some s.forest ∧
+    ∀ e ∈ (verify s).xCache, e.2 = getRaw s.forest e.1.1 e.1.2 := by
+  obtain ⟨h1, h2, h3, h4, h5, h6⟩ := currentHash_spec hinv.memo
+  unfold verify
+  split
+  · rename_i hc
+    rw [h1, h6] at hc
+    have hc : s.xCacheId = some s.forest := by simpa using hc
+    refine ⟨h2, h3, h4, by rw [h6, hc], ?_⟩
+    rw [h5]
+    exact hinv.xs _ hc
+  · exact ⟨h2, h3, h4, by simp [h1], by simp⟩
+
+omit [DecidableEq G] in
+theorem compute_spec {s : Graph N G}
+    (hp : ∀ e ∈ s.pathCache, pathTo s.forest e.1.1 e.1.2 = some e.2) (hsym : PathSym s.forest)
+    (a b : N) :
+    (compute s a b).1 = getRaw s.forest a b ∧
+    (compute s a b).2.forest = s.forest ∧ (compute s a b).2.hashMemo = s.hashMemo ∧
+    (compute s a b).2.xCache = s.xCache ∧ (compute s a b).2.xCacheId = s.xCacheId ∧
+    (∀ e ∈ (compute s a b).2.pathCache, pathTo s.forest e.1.1 e.1.2 = some e.2) := by
+  unfold compute getRaw
+  by_cases hab : a = b
+  · rw [if_pos hab, if_pos hab]
+    exact ⟨rfl, rfl, rfl, rfl, rfl, hp⟩
+  · rw [if_neg hab, if_neg hab]
+    cases he : edgeOf s.forest a b with
+    | some g => exact ⟨rfl, rfl, rfl, rfl, rfl, hp⟩
+    | none =>
+      obtain ⟨h1, h2, h3, h4, h5, h6⟩ := cachedPath_spec hp hsym a b
+      refine ⟨?_, h1, h2, h3, h4, h5⟩
+      simp only
+      rw [h1]
+      exact h6
+
+theorem doGet_spec {s : Graph N G} (hinv : CacheInv s) (hsym : PathSym s.forest) (a b : N) :
+    (doGet s a b).1 = getRaw s.forest a b ∧ CacheInv (doGet s a b).2 ∧
+      (doGet s a b).2.forest = s.forest := by
+  obtain ⟨v1, v2, v3, v4, v5⟩ := verify_spec hinv
+  have hpv : ∀ e ∈ (verify s).pathCache,
+      pathTo (verify s).forest e.1.1 e.1.2 = some e.2 := by
+    rw [v1, v3]; exact hinv.paths
+  have hsv : PathSym (verify s).forest := by rw [v1]; exact hsym
+  obtain ⟨c1, c2, c3, c4, c5, c6⟩ := compute_spec hpv hsv a b
+  rw [v1] at c1 c2 c6
+  rw [doGet_eq]
+  split
+  · rename_i e he
+    have hm := List.mem_of_find?_eq_some he
+    have hk : e.1 = (a, b) := by simpa using List.find?_some he
+    refine ⟨?_, ⟨?_, ?_, ?_, ?_⟩, v1⟩
+    · have := v5 e hm
+      rw [hk] at this; exact this
+    · rw [v1]; exact hinv.wfs
+    · rw [v1]; exact Or.inr v2
+    · rw [v1, v3]; exact hinv.paths
+    · intro h hh e' he'
+      rw [v4] at hh; cases hh
+      exact v5 e' he'
+  · split
+    · rename_i g hg
+      rw [hg] at c1
+      refine ⟨c1, ⟨?_, ?_, ?_, ?_⟩, c2⟩
+      · show WFs (compute (verify s) a b).2.forest
+        rw [c2]; exact hinv.wfs
+      · show _ ∨ (compute (verify s) a b).2.hashMemo = some (compute (verify s) a b).2.forest
+        rw [c2, c3]; exact Or.inr v2
+      · show ∀ e ∈ (compute (verify s) a b).2.pathCache,
+          pathTo (compute (verify s) a b).2.forest e.1.1 e.1.2 = some e.2
+        rw [c2]; exact c6
+      · intro h hh e' he'
+        have hh : (compute (verify s) a b).2.xCacheId = some h := hh
+        rw [c5, v4] at hh; cases hh
+        have he' : e' ∈ ((a, b), some g) :: (compute (verify s) a b).2.xCache := he'
+        rcases List.mem_cons.mp he' with rfl | he'
+        · exact c1
+        · rw [c4] at he'; exact v5 e' he'
+    · rename_i hg
+      rw [hg] at c1
+      refine ⟨c1, ⟨?_, ?_, ?_, ?_⟩, c2⟩
+      · rw [c2]; exact hinv.wfs
+      · rw [c2, c3]; exact Or.inr v2
+      · rw [c2]; exact c6
+      · intro h hh e' he'
+        rw [c5, v4] at hh; cases hh
+        rw [c4] at he'; exact v5 e' he'
+
+omit [DecidableEq G] in
+theorem doAddEdge_inv {t : InvalTable} (ht : t.ok = true) {s : Graph N G} (hinv : CacheInv s)
+    (u v : N) (g : G) : CacheInv (doAddEdge t s u v g) := by
+  obtain ⟨t1, t2, t3, t4, t5⟩ := t
+  simp only [InvalTable.ok, Bool.and_eq_true] at ht
+  obtain ⟨⟨⟨⟨rfl, rfl⟩, rfl⟩, rfl⟩, rfl⟩ := ht
+  unfold doAddEdge
+  refine ⟨wfs_addEdge hinv.wfs u v g, Or.inl rfl, ?_, hinv.xs⟩
+  simp only [Bool.and_true]
+  cases he : edgeOf s.forest u v with
+  | none => simp
+  | some g₀ =>
+    simp only [Option.isNone_some, Bool.false_eq_true, if_false]
+    intro e hm
+    rw [pathTo_addEdge_of_edge hinv.wfs g he]
+    exact hinv.paths e hm
+
+omit [DecidableEq G] in
+theorem doRemoveNode_inv {t : InvalTable} (ht : t.ok = true) {s : Graph N G} (hinv : CacheInv s)
+    (u : N) : CacheInv (doRemoveNode t s u) := by
+  obtain ⟨t1, t2, t3, t4, t5⟩ := t
+  simp only [InvalTable.ok, Bool.and_eq_true] at ht
+  obtain ⟨⟨⟨⟨rfl, rfl⟩, rfl⟩, rfl⟩, rfl⟩ := ht
+  unfold doRemoveNode
+  split
+  · exact hinv
+  · exact ⟨wfs_removeNode hinv.wfs u, Or.inl rfl, by simp, hinv.xs⟩
+
+theorem step_inv {t : InvalTable} (ht : t.ok = true) {s : Graph N G} (hinv : CacheInv s)
+    (hsym : PathSym s.forest) (op : Op N G) : CacheInv (step t s op).2 := by
+  cases op with
+  | update v u g => exact doAddEdge_inv ht hinv u v g
+  | updateBase v g => exact doAddEdge_inv ht hinv s.base v g
+  | removeNode u => exact doRemoveNode_inv ht hinv u
+  | setBase b => exact ⟨hinv.wfs, hinv.memo, hinv.paths, hinv.xs⟩
+  | clear =>
+    have h5 : t.clearClearsCache = true := by
+      obtain ⟨t1, t2, t3, t4, t5⟩ := t
+      simp only [InvalTable.ok, Bool.and_eq_true] at ht
+      exact ht.2
+    simp only [step, h5, if_true]
+    exact cacheInv_init s.base
+  | get b a => exact (doGet_spec hinv hsym a b).2.1
+  | getBase b => exact (doGet_spec hinv hsym s.base b).2.1
+
+/-- the cache invariant holds along every history whose forests stay path-symmetric
+    (`P` is any property of the forests visited that yields path symmetry, e.g. acyclicity) -/
+theorem run_inv {t : InvalTable} (ht : t.ok = true) (P : Forest N G → Prop)
+    (hP : ∀ f, WFs f → P f → PathSym f) :
+    ∀ (ops : List (Op N G)) (s : Graph N G), CacheInv s →
+      (∀ k, P (run t s (ops.take k)).forest) → CacheInv (run t s ops) := by
+  intro ops
+  induction ops with
+  | nil => intro s hinv _; exact hinv
+  | cons op ops ih =>
+    intro s hinv hk
+    have h0 : P s.forest := by simpa [run] using hk 0
+    have hs := step_inv ht hinv (hP _ hinv.wfs h0) op
+    have := ih (step t s op).2 hs (fun k => by simpa [run] using hk (k + 1))
+    simpa [run] using this
+
+end cache
+
+/-! ### the cached query agrees with the cache-free one on acyclic histories -/
+section final
+variable [Mul G] [One G] [Inv G] [LawfulGroup G] [DecidableEq G]
+
+/-- acyclicity of the parent relation -/
+def Acyclic (f : Forest N G) : Prop := ∃ rank : N → Nat, ∀ p ∈ f.parents, rank p.2 < rank p.1
+
+omit [DecidableEq N] [Mul G] [One G] [Inv G] [LawfulGroup G] [DecidableEq G] in
+theorem WFr.toAcyclic {f : Forest N G} {rank : N → Nat} (h : WFr f rank) : Acyclic f :=
+  ⟨rank, h.acyclic⟩
+
+omit [DecidableEq G] in
+theorem pathSym_of_acyclic (f : Forest N G) (h : WFs f) (hac : Acyclic f) : PathSym f := by
+  obtain ⟨rank, hr⟩ := hac
+  intro a b p hp
+  exact pathProduct_reverse_pathTo (rank := rank) ⟨h.1, h.2, h.3, hr⟩ a b hp
+
+/-- cache coherence for every history in which the forest is acyclic after each operation
+    (the unconditional statement is false: see the 4-cycle counterexample in Props/C09.lean) -/
+theorem cached_get_eq_raw_of_acyclic (t : InvalTable) (ht : t.ok = true) (base : N)
+    (ops : List (Op N G))
+    (hac : ∀ k, Acyclic (run t (Graph.init base) (ops.take k)).forest) (a b : N) :
+    (doGet (run t (Graph.init base) ops) a b).1 = getRaw (run t (Graph.init base) ops).forest a b := by
+  have hinv := run_inv ht Acyclic pathSym_of_acyclic ops _ (cacheInv_init base) hac
+  have hlast : Acyclic (run t (Graph.init base) ops).forest := by
+    simpa using hac ops.length
+  exact (doGet_spec hinv (pathSym_of_acyclic _ hinv.wfs hlast) a b).1
+
+/-- an operation that does not close a cycle (the analogue of `NoCycle` for `update`) -/
+def OpOK (s : Graph N G) : Op N G → Prop
+  | .update v u _ => v ∉ anc s.forest u
+  | .updateBase v _ => v ∉ anc s.forest s.base
+  | _ => True
+
+/-- a history none of whose updates closes a cycle -/
+def Safe (t : InvalTable) : Graph N G → List (Op N G) → Prop
+  | _, [] => True
+  | s, op :: ops => OpOK s op ∧ Safe t (step t s op).2 ops
+
+theorem step_acyclic {t : InvalTable} {s : Graph N G} (hinv : CacheInv s)
+    (hac : Acyclic s.forest) (op : Op N G) (hok : OpOK s op) :
+    Acyclic (step t s op).2.forest := by
+  have hsym := pathSym_of_acyclic _ hinv.wfs hac
+  obtain ⟨rank, hr⟩ := hac
+  have hw : WFr s.forest rank := ⟨hinv.wfs.1, hinv.wfs.2, hinv.wfs.3, hr⟩
+  cases op with
+  | update v u g => exact (wfr_addEdge hw u v g hok).toAcyclic
+  | updateBase v g => exact (wfr_addEdge hw s.base v g hok).toAcyclic
+  | removeNode u =>
+    simp only [step, doRemoveNode]
+    split
+    · exact ⟨rank, hr⟩
+    · exact ⟨rank, (wfr_removeNode hw u).acyclic⟩
+  | setBase b => exact ⟨rank, hr⟩
+  | clear =>
+    simp only [step]
+    split <;> exact ⟨fun _ => 0, by simp [Graph.init, Forest.empty]⟩
+  | get b a =>
+    simp only [step]
+    rw [(doGet_spec hinv hsym a b).2.2]; exact ⟨rank, hr⟩
+  | getBase b =>
+    simp only [step]
+    rw [(doGet_spec hinv hsym s.base b).2.2]; exact ⟨rank, hr⟩
+
+theorem run_safe {t : InvalTable} (ht : t.ok = true) :
+    ∀ (ops : List (Op N G)) (s : Graph N G), CacheInv s → Acyclic s.forest → Safe t s ops →
+      CacheInv (run t s ops) ∧ Acyclic (run t s ops).forest := by
+  intro ops
+  induction ops with
+  | nil => intro s hinv hac _; exact ⟨hinv, hac⟩
+  | cons op ops ih =>
+    intro s hinv hac hs
+    have h1 := step_inv ht hinv (pathSym_of_acyclic _ hinv.wfs hac) op
+    have h2 := step_acyclic (t := t) hinv hac op hs.1
+    have := ih (step t s op).2 h1 h2 hs.2
+    simpa [run] using this
+
+/-- cache coherence for every history none of whose updates closes a cycle -/
+theorem cached_get_eq_raw_of_safe (t : InvalTable) (ht : t.ok = true) (base : N)
+    (ops : List (Op N G)) (hs : Safe t (Graph.init base) ops) (a b : N) :
+    (doGet (run t (Graph.init base) ops) a b).1 = getRaw (run t (Graph.init base) ops).forest a b := by
+  obtain ⟨hinv, hac⟩ := run_safe ht ops _ (cacheInv_init base)
+    ⟨fun _ => 0, by simp [Graph.init, Forest.empty]⟩ hs
+  exact (doGet_spec hinv (pathSym_of_acyclic _ hinv.wfs hac) a b).1
+
+end final
+
 end TV.Forest
